@@ -16,7 +16,7 @@ ID = 'C07'
 LEVEL = 'model_checking'
 TECHNIQUE = ('bounded exhaustive enumeration of component chains x per-component spellings x joiners x configurations on the real '
              'Tract preprocessor/parser; oracle: canonical text, equality with the canonical text\'s result, fixed point')
-LEVEL_TEXT = ('All chains of length <= 2 with the full product of 55 documented spellings, all chains of length 3 with <= 1 (quick) '
+LEVEL_TEXT = ('All chains of length <= 2 with the full product of 66 spellings (the documented ones plus spaced, lower-case and word + symbol forms), all chains of length 3 with <= 1 (quick) '
               'non-default spelling / the full product (thorough), x 7 joiners (incl. upper-case OF THE) x 4 configurations; every case is compared with the '
               'canonical rendering of the same chain under the same configuration and re-fed to the preprocessor. The bare-quarter '
               'clause is enumerated over all quarters x halves x 6 contexts (incl. a half that is itself glued to a preceding component) x clean_qq. Spelling bugs are local to one component and '
@@ -33,15 +33,15 @@ ASSUMPTIONS = [
 ]
 
 SP = {
-    'N': ['N/2', 'N2', 'N½', 'N 1/2', 'North Half', 'N. 1/2', 'No. 1/2', 'North One Half', 'north half', 'N /2'],
-    'S': ['S/2', 'S2', 'S½', 'S 1/2', 'South Half', 'So. Half'],
+    'N': ['N/2', 'N2', 'N½', 'N 1/2', 'North Half', 'N. 1/2', 'No. 1/2', 'North One Half', 'north half', 'N /2', 'N ½', 'n½', 'North ½'],
+    'S': ['S/2', 'S2', 'S½', 'S 1/2', 'South Half', 'So. Half', 'S ½', 's½'],
     'E': ['E/2', 'E2', 'E½', 'E 1/2', 'East Half'],
     'W': ['W/2', 'W2', 'W½', 'W 1/2', 'West Half'],
     'NE': ['NE/4', 'NE4', 'NE¼', 'NE 1/4', 'Northeast Quarter', 'North East Quarter', 'North East One Quarter',
-           'N.E. 1/4', 'NE /4', 'Northeast One-Quarter', 'northeast quarter'],
+           'N.E. 1/4', 'NE /4', 'Northeast One-Quarter', 'northeast quarter', 'NE ¼', 'ne¼', 'Northeast ¼', 'North East ¼'],
     'NW': ['NW/4', 'NW4', 'NW¼', 'NW 1/4', 'Northwest Quarter', 'North West Quarter'],
     'SE': ['SE/4', 'SE4', 'SE¼', 'SE 1/4', 'Southeast Quarter', 'South East Quarter'],
-    'SW': ['SW/4', 'SW4', 'SW¼', 'SW 1/4', 'Southwest Quarter', 'South West One Quarter'],
+    'SW': ['SW/4', 'SW4', 'SW¼', 'SW 1/4', 'Southwest Quarter', 'South West One Quarter', 'SW ¼', 'sw¼'],
 }
 CANON = {'N': 'N½', 'S': 'S½', 'E': 'E½', 'W': 'W½', 'NE': 'NE¼', 'NW': 'NW¼', 'SE': 'SE¼', 'SW': 'SW¼'}
 COMPS = list(SP)
